@@ -436,6 +436,14 @@ public:
         iterator(const reverse_iterator& it)
             : curr_leaf(it.curr_leaf), curr_slot(it.curr_slot)
         {
+            // a reverse iterator refers to slot curr_slot-1: one past the last
+            // slot of a leaf denotes the first slot of the next leaf.
+            if (curr_leaf != nullptr && curr_slot == curr_leaf->slotuse &&
+                curr_leaf->next_leaf != nullptr)
+            {
+                curr_leaf = curr_leaf->next_leaf;
+                curr_slot = 0;
+            }
         }
 
         //! Dereference the iterator.
@@ -627,12 +635,28 @@ public:
         const_iterator(const reverse_iterator& it)
             : curr_leaf(it.curr_leaf), curr_slot(it.curr_slot)
         {
+            // a reverse iterator refers to slot curr_slot-1: one past the last
+            // slot of a leaf denotes the first slot of the next leaf.
+            if (curr_leaf != nullptr && curr_slot == curr_leaf->slotuse &&
+                curr_leaf->next_leaf != nullptr)
+            {
+                curr_leaf = curr_leaf->next_leaf;
+                curr_slot = 0;
+            }
         }
 
         //! Copy-constructor from a const reverse iterator
         const_iterator(const const_reverse_iterator& it)
             : curr_leaf(it.curr_leaf), curr_slot(it.curr_slot)
         {
+            // a reverse iterator refers to slot curr_slot-1: one past the last
+            // slot of a leaf denotes the first slot of the next leaf.
+            if (curr_leaf != nullptr && curr_slot == curr_leaf->slotuse &&
+                curr_leaf->next_leaf != nullptr)
+            {
+                curr_leaf = curr_leaf->next_leaf;
+                curr_slot = 0;
+            }
         }
 
         //! Dereference the iterator.
@@ -826,6 +850,14 @@ public:
         reverse_iterator(const iterator& it)
             : curr_leaf(it.curr_leaf), curr_slot(it.curr_slot)
         {
+            // a reverse iterator refers to slot curr_slot-1: slot 0 of a leaf
+            // with a predecessor denotes one past the last slot of that leaf.
+            if (curr_leaf != nullptr && curr_slot == 0 &&
+                curr_leaf->prev_leaf != nullptr)
+            {
+                curr_leaf = curr_leaf->prev_leaf;
+                curr_slot = curr_leaf->slotuse;
+            }
         }
 
         //! Dereference the iterator.
@@ -1015,12 +1047,28 @@ public:
         const_reverse_iterator(const iterator& it)
             : curr_leaf(it.curr_leaf), curr_slot(it.curr_slot)
         {
+            // a reverse iterator refers to slot curr_slot-1: slot 0 of a leaf
+            // with a predecessor denotes one past the last slot of that leaf.
+            if (curr_leaf != nullptr && curr_slot == 0 &&
+                curr_leaf->prev_leaf != nullptr)
+            {
+                curr_leaf = curr_leaf->prev_leaf;
+                curr_slot = curr_leaf->slotuse;
+            }
         }
 
         //! Copy-constructor from a const iterator.
         const_reverse_iterator(const const_iterator& it)
             : curr_leaf(it.curr_leaf), curr_slot(it.curr_slot)
         {
+            // a reverse iterator refers to slot curr_slot-1: slot 0 of a leaf
+            // with a predecessor denotes one past the last slot of that leaf.
+            if (curr_leaf != nullptr && curr_slot == 0 &&
+                curr_leaf->prev_leaf != nullptr)
+            {
+                curr_leaf = curr_leaf->prev_leaf;
+                curr_slot = curr_leaf->slotuse;
+            }
         }
 
         //! Copy-constructor from a mutable reverse iterator.
